@@ -1219,8 +1219,8 @@ def read_ms5_xsf(path, prefix, qc, corr, sep="r", **kwargs):
                 names.append(prefix)
     if 'idl' in kwargs:
         expected_idl = kwargs.get('idl')
-    names = sorted(names)
-    files = sorted(files)
+    names = sort_names(names)
+    files = sort_names(files)
 
     cnfgs = []
     realsamples = []
